@@ -5,6 +5,8 @@ from pathlib import Path
 ROOT = Path(__file__).resolve().parent.parent
 BASELINE = "cd /repo && /venv/bin/python -m pytest -ra -q -p no:cacheprovider --timeout=900 --continue-on-collection-errors"
 
+CORE_NOTE = 'Trusted: Lean kernel, standard axioms (SplitRange uses Mathlib linarith); the hand-written Core model is tied to the code by the sampled correspondence (state after every step incl. raw GLPK problem read with swiglpk). Proved for the operations in Core.Op (bounds setters, knock-outs, add/subtract_metabolites on metabolites of the model, objective coefficient / dict, direction, enter/exit); the other public operations (add/remove reactions, metabolites, boundaries, genes, rule setter, *=, copy, ...) are exercised by the correspondence re-sync and the direct oracle only and are listed per run as oracle_only_ops. Float rounding is not modelled (dyadic inputs).'
+
 CLAIMED = {
     "C15": dict(
         engine="dictlist",
@@ -33,6 +35,39 @@ CLAIMED = {
         technique="Lean 4 proof (mutual structural induction over rule trees) + generated tables + differential correspondence",
         design="DESIGN.md section 5, C08",
     ),
+    "C01": dict(
+        engine="core",
+        text="Lean 4: Core.Sync (variables = forward/reverse pairs with the boxes of update_variable_bounds, rows = metabolites with current "
+             "stoichiometry, antisymmetric objective) is preserved by every modelled operation and every program of operations and nested contexts "
+             "(sync_preserved, sync_after_program), and the forward/reverse boxes describe exactly [lb, ub] (split_range). Tied to the code by a "
+             "step-by-step correspondence that reads the raw GLPK problem, plus a direct oracle that rebuilds the FBA problem from the content "
+             "after every step of every generated history (all public edit ops, failing ones included).",
+        note=CORE_NOTE, technique="Lean 4 proof (invariant over operation sequences) + differential correspondence incl. raw GLPK read-out",
+        design="DESIGN.md section 5, C01"),
+    "C02": dict(
+        engine="core",
+        text="Lean 4: Core.WF (back-references both ways, ownership, genes of the rule, no zero coefficients, ordered bounds) is preserved by every "
+             "modelled edit incl. raising outcomes and by every program (wf_preserved, wf_after_program); closed-form spec of add_metabolites and "
+             "frame of the bounds setters. Tied to the code by the Core correspondence and a cross-reference oracle on the real objects "
+             "(identity, ownership, DictList lookups, groups) after every step of every generated history.",
+        note=CORE_NOTE, technique="Lean 4 proof (invariant over operation sequences) + differential correspondence + cross-reference oracle",
+        design="DESIGN.md section 5, C02"),
+    "C03": dict(
+        engine="core",
+        text="Lean 4: with_block_restores — for every program body (any operations of Core.Op, any nesting of with-blocks, any raise point) the block "
+             "returns exactly the system it was entered with (state equality incl. solver, objective, direction, context stack) and __exit__ does "
+             "not raise; op_well_recorded per operation. Tied to the code by the Core correspondence and by full snapshots at __enter__ vs after "
+             "__exit__ on generated nested programs over all context-aware public ops.",
+        note=CORE_NOTE, technique="Lean 4 proof (LIFO undo by mutual induction over nested programs) + snapshot comparison on the real model",
+        design="DESIGN.md section 5, C03"),
+    "C07": dict(
+        engine="core",
+        text="Lean 4: gene_knock_out (after Gene.knock_out the gene is non-functional, a reaction has both bounds zero exactly when it is one of the "
+             "gene's reactions whose rule is false with the non-functional genes absent, all others keep their bounds, reaction.functional is the "
+             "rule value), reaction_knock_out, monotonicity of further knock-outs, knock-outs are recorded/undone. Tied to the code by the Core "
+             "correspondence and an independent truth-table oracle over bounds, flags and GLPK column bounds.",
+        note=CORE_NOTE, technique="Lean 4 proof over the Core model + truth-table oracle",
+        design="DESIGN.md section 5, C07"),
 }
 
 PENDING_REASON = "check under construction in this session (see DESIGN.md section 9 build order); not claimed until its Lean model, theorems and correspondence exist"
@@ -69,6 +104,8 @@ def main():
         "engines": [
             {"name": "dictlist", "path": "harness/c15.py", "serves_properties": ["C15"],
              "kind_free_text": "Lean model DLM + theorems (lean/CobraModel/{Model,Lemmas,Props}) and op-sequence correspondence against cobra.core.DictList"},
+            {"name": "core", "path": "harness/core_engine.py", "serves_properties": ["C01", "C02", "C03", "C07"],
+             "kind_free_text": "Lean Core model (content + solver + undo stack as functions over ids), theorems in Props/C01,C02,C03,C07, traces on the real model with raw GLPK read-out"},
             {"name": "gpr", "path": "harness/c08.py", "serves_properties": ["C08"],
              "kind_free_text": "Lean model GPRM (rule trees, parser, remover) + generated escape tables + correspondence against cobra.core.gene.GPR"},
         ],
